@@ -307,3 +307,11 @@ def corrupt_trace(src, dst):
                 g.writelines(lines)
             return True
     return False
+
+
+def explain_replay(bins, replay):
+    """./check Cxx --replay <violation.json>: re-execute the stored commands verbosely (stdout), exit 0."""
+    out = vlib.run_harness(bins["replay_config"], ["--explain", replay], timeout=300)
+    for o in out:
+        print(json.dumps(o)[:1500])
+    raise SystemExit(0)
